@@ -14,7 +14,7 @@ table the SC argument relies on.
 `Good cfg`: the code as it is now — `flush` arms the notifier (b814cbc) and `Remote::schedule` wakes the driver
 after every push (e1c512a). The pre-fix orders are refuted in Compio.Cex.C03.
 -/
-import Compio.Lemmas.WakeInv
+import Compio.Lemmas.WakeProgress
 import Compio.Gen.WakeOrder
 
 namespace Compio.Props.C03
@@ -112,5 +112,339 @@ the runtime thread is covered -/
 theorem no_lost_wake_main {cfg : Cfg} {s : State} (hg : Good cfg) (h : Reachable cfg s)
     (hw : s.mainWoken = true) : covM s = true :=
   (inv_of_reachable hg h).covMain hw
+
+/-! ### (i) the wait does not block forever -/
+
+/-- the runtime thread can only be blocked in the kernel wait of its own loop or in the external loop's wait -/
+theorem rt_blocks_only_in_wait (s : State) (h : rtStep s .go = none) : s.rt = .wait ∨ s.rt = .xwait :=
+  blocked_only_in_wait s h
+
+/-- own loop: in a reachable state in which the runtime thread is at the kernel wait and is covered (a queued id
+whose pusher finished, a woken main future, or a hot task), the wait returns — `reset` had returned "notified"
+(`needWait = false`), or the eventfd / poller is signalled and (io_uring) the notifier's poll is armed so that a
+completion is there, or the timeout is zero — unless a waker thread is still between taking the NOTIFIED bit and
+its `write`, and that thread can always move (`signaller_not_blocked`) -/
+theorem covered_wait_returns {cfg : Cfg} {s : State} (hg : Good cfg) (h : Reachable cfg s)
+    (hpc : s.rt = .wait) (hl : s.cfg.loop = .own) (hc : cov s = true ∨ covM s = true ∨ s.hot ≠ []) :
+    (rtStep s .go).isSome = true ∨ ∃ w, w < s.cfg.nw ∧ inflightP (s.wk w) = true := by
+  rcases wait_returns (inv_of_reachable hg h) hpc hl hc with h1 | h1
+  · exact Or.inl h1
+  · exact Or.inr ((cnt_pos_iff _ _).1 h1)
+
+/-- external loop (flush → wait on the descriptor → clear → poll_with(0)), under the repaired `flush`: the same for
+the wait on the descriptor: it is readable (or the loop uses a zero timeout) -/
+theorem covered_external_wait_returns {cfg : Cfg} {s : State} (hg : Good cfg) (h : Reachable cfg s)
+    (hpc : s.rt = .xwait) (hc : cov s = true ∨ covM s = true ∨ s.hot ≠ []) :
+    (rtStep s .go).isSome = true ∨ ∃ w, w < s.cfg.nw ∧ inflightP (s.wk w) = true := by
+  rcases xwait_returns (inv_of_reachable hg h) hpc hc with h1 | h1
+  · exact Or.inl h1
+  · exact Or.inr ((cnt_pos_iff _ _).1 h1)
+
+/-- what "the wait returns" means at the external wait: zero timeout or readable descriptor -/
+theorem external_wait_enabled_iff (s : State) (hpc : s.rt = .xwait) :
+    (rtStep s .go).isSome = true ↔ (s.zero = true ∨ fdReadable s = true) := by
+  unfold rtStep
+  simp only [hpc]
+  split <;> simp_all
+
+/-- a waker thread between `fetch_or` and `write` is never blocked -/
+theorem signaller_not_blocked {s : State} {w : Nat} (hw : w < s.cfg.nw) (h : inflightP (s.wk w) = true) :
+    (step s (.w w)).isSome = true := by
+  simp only [step, hw, decide_true, if_true]
+  exact inflight_can_step h
+
+/-! ### (ii) bounded progress of the runtime thread alone -/
+
+theorem reachable_cfg {cfg : Cfg} {s : State} (h : Reachable cfg s) : s.cfg = cfg := by
+  obtain ⟨evs, he⟩ := h
+  exact run_cfg he
+
+/-- BOUNDED PROGRESS (tasks). In a reachable state in which a live task t sits in the hot list or in the sync
+queue, and no waker thread is in the middle of its driver wake-up (between push and `fetch_or`, or between
+`fetch_or` and `write`: those threads are never blocked and need at most three steps), the runtime thread ALONE —
+every poll returning Pending, no step of any other thread, no timeout — starts a poll of t within
+`(posOf s t + 2) * (|sync| + 22)` of its own steps, where `posOf` is the position of t in the hot list (if it is in
+the sync queue: behind everything hot and its predecessors in the queue). One tick serves `max_interval ≥ 1` hot
+tasks, so this is at most `posOf + 1` ticks; the deterministic continuation never blocks. -/
+theorem queued_task_is_polled {cfg : Cfg} {s : State} (hg : Good cfg) (h : Reachable cfg s) (t : Nat)
+    (hm : 1 ≤ cfg.maxInt) (hd : s.dropped t = false) (hc : TaskState.isCancelled (s.word t) = false)
+    (hq : t ∈ s.hot ∨ t ∈ s.sync) (hni : cnt s inflightP = 0) (hna : cnt s aboutP = 0) :
+    ∃ n, n ≤ (posOf s t + 2) * (s.sync.length + 22) ∧ (rtRun n s).polls t = s.polls t + 1 := by
+  have hcfg := reachable_cfg h
+  have hdue : Due s.sync.length s t :=
+    { inv := inv_of_reachable hg h, fa := by rw [hcfg]; exact hg.1, mpos := by rw [hcfg]; exact hm,
+      alive := ⟨hd, hc⟩, queued := hq, noInflight := hni, noAbout := hna, len := Nat.le_refl _ }
+  obtain ⟨n, hn, hp⟩ := due_progress t _ s hdue (Nat.le_refl _)
+  refine ⟨n, ?_, hp⟩
+  have hw : wOf s ≤ 2 * s.sync.length + 26 := wPc_le _ _
+  have : (posOf s t + 2) * (s.sync.length + 22) = posOf s t * (s.sync.length + 22) + 2 * (s.sync.length + 22) := by
+    rw [Nat.add_mul]
+  omega
+
+/-- BOUNDED PROGRESS (main future): if a wake of the main future has returned and no waker thread is between
+`fetch_or` and `write`, the runtime thread alone starts the next poll of the main future within
+`|sync| + 2 * max_interval + 30` steps (at most the rest of the current iteration of its loop) -/
+theorem woken_main_is_polled {cfg : Cfg} {s : State} (hg : Good cfg) (h : Reachable cfg s)
+    (hw : s.mainWoken = true) (hni : cnt s inflightP = 0) :
+    ∃ n, n ≤ mOf s + 1 ∧ (rtRun n s).mainPolls = s.mainPolls + 1 := by
+  have hcfg := reachable_cfg h
+  exact dueM_progress _ s { inv := inv_of_reachable hg h, fa := by rw [hcfg]; exact hg.1, woken := hw,
+                            noInflight := hni } (Nat.le_refl _)
+
+/-! ### full queue: the waking thread waits instead of discarding -/
+
+/-- with a full queue the push step changes nothing but the thread's own program counter: first the driver is
+woken (once), then the thread spins -/
+theorem full_queue_spins (s : State) (w t : Nat) (hpc : (s.wk w).pc = .push) (hk : (s.wk w).kind = .task t)
+    (hfull : ¬ s.sync.length < s.cfg.q) :
+    ∃ s', wStep s w = some s' ∧ s'.sync = s.sync ∧ s'.pending = s.pending ∧ (s'.wk w).pushed = (s.wk w).pushed ∧
+      ((s'.wk w).pc = .dwake ∨ (s'.wk w).pc = .spin) := by
+  unfold wStep
+  simp only [hpc, hk, hfull, if_false]
+  split <;> exact ⟨_, rfl, rfl, rfl, by simp [setWk], by simp [setWk]⟩
+
+/-- a call of `Remote::schedule` reaches its last step (`finish_scheduling`) without having pushed only if it was
+coalesced with an earlier wake (SCHEDULED was set), or the task is completed, cancelled or dropped -/
+theorem returns_without_push_only_if (s s' : State) (w t : Nat) (hk : (s.wk w).kind = .task t)
+    (hs : wStep s w = some s') (hfin : (s'.wk w).pc = .fin) (hnot : (s.wk w).pc ≠ .fin)
+    (hnp : (s'.wk w).pushed = false) :
+    ((s.wk w).pc = .sched ∧ (TaskState.isScheduled (s.word t) || TaskState.isCompleted (s.word t)
+        || TaskState.isCancelled (s.word t)) = true) ∨
+    ((s.wk w).pc = .load ∧ s.dropped t = true) ∨
+    ((s.wk w).pc = .spin ∧ TaskState.isCancelled (s.word t) = true) := by
+  unfold wStep at hs
+  unfold mainDone at hs
+  repeat' split at hs
+  all_goals (try simp only [Option.some.injEq, reduceCtorEq] at hs)
+  all_goals (try subst hs)
+  all_goals (simp only [setWk, subPending, kWrite, upd_same] at hfin hnp)
+  all_goals (simp_all)
+
+/-! ### call order: the model's threads execute the calls in the order extracted from the sources -/
+
+def names (l : List (String × String)) (keep : List String) : List String :=
+  (l.map Prod.fst).filter (fun c => keep.contains c)
+
+/-- the call a program point of the runtime thread stands for -/
+def callOfPc : RtPc → Option String
+  | .reset | .xreset => some "reset"
+  | .arm | .xarm => some "arm_notifier"
+  | .submit | .xsubmit => some "submit_auto"      -- `.submit` = the submission half, `.wait` = its waiting half
+  | .setAwake1 | .setAwake2 => some "set_awake"
+  | .consume => some "poll_entries"                -- `.clear` = `notifier.clear()` inside it
+  | _ => none
+
+/-- program points the runtime thread passes, starting at `s.rt`, for `n` steps (`.go`) -/
+def pcTrace : Nat → State → List RtPc
+  | 0, _ => []
+  | n + 1, s => s.rt :: match rtStep s .go with
+    | some s' => pcTrace n s'
+    | none => []
+
+def cfgOf (d : Drv) (l : Loop) : Cfg := { drv := d, loop := l, q := 1, maxInt := 1, nw := 0, flushArms := true, rewake := true }
+
+/-- `iour::Driver::poll`: the model runs reset, arm_notifier, submit_auto(wait), set_awake, poll_entries, set_awake —
+the order in the source -/
+theorem iour_poll_order :
+    (pcTrace 8 { (init (cfgOf .iour .own)) with rt := .reset, cq := true }).filterMap callOfPc =
+      names WakeOrder.iourPoll ["reset", "arm_notifier", "submit_auto", "set_awake", "poll_entries"] := by
+  decide
+
+/-- `iour::Driver::flush` (external loop): arm_notifier, submit_auto, reset — the order in the source; in particular
+the notifier IS armed by `flush` (the repair of F16) -/
+theorem iour_flush_order :
+    (pcTrace 3 { (init (cfgOf .iour .ext)) with rt := .xarm }).filterMap callOfPc =
+      names WakeOrder.iourFlush ["reset", "arm_notifier", "submit_auto"] := by
+  decide
+
+/-- the protocol order every `poll` must respect: `reset` before the wait, arming before the wait, `set_awake`
+only after the wait -/
+def orderOk (wait : String) (l : List String) : Bool :=
+  match l.idxOf wait, l.idxOf "reset" with
+  | iw, ir =>
+    decide (iw < l.length) && decide (ir < iw) &&
+    (!(l.contains "arm_notifier") || decide (l.idxOf "arm_notifier" < iw)) &&
+    decide (iw < l.idxOf "set_awake")
+
+theorem poll_orders_ok :
+    orderOk "submit_auto" (names WakeOrder.iourPoll ["reset", "arm_notifier", "submit_auto", "set_awake", "poll_entries"]) = true ∧
+    orderOk "wait" (names WakeOrder.pollPoll ["reset", "wait", "set_awake", "with_events"]) = true := by
+  decide
+
+/-- the early exits of `iour::Driver::poll` (`arm_notifier()?`, `submit_auto()?`) come before the first `set_awake`:
+the model's timed-out wait returns without touching the flag -/
+theorem iour_poll_early_exits :
+    WakeOrder.iourPoll.map Prod.fst =
+      ["poll_blocking", "return", "reset", "arm_notifier", "?", "submit_auto", "?", "set_awake", "poll_entries", "set_awake"] := by
+  decide
+
+/-- `poll::Driver::poll`: reset, wait, set_awake, then `with_events` whose last action is `set_awake`;
+`poll::Driver::flush`: reset only -/
+theorem poll_driver_order :
+    names WakeOrder.pollPoll ["reset", "wait", "set_awake", "with_events"] = ["reset", "wait", "set_awake", "with_events"] ∧
+    WakeOrder.pollWithEvents.map Prod.fst = ["f", "set_awake"] ∧
+    WakeOrder.pollFlush.map Prod.fst = ["reset"] := by
+  decide
+
+/-- the driver waker on both drivers: `fetch_or` first, the syscall only if it returned false -/
+theorem wake_by_ref_shape :
+    WakeOrder.iourWakeByRef = [("wake", ""), ("write", "if !self.awake.wake()")] ∧
+    WakeOrder.pollWakeByRef = [("wake", ""), ("notify", "if !self.awake.wake()")] := by
+  decide
+
+/-- `poll_entries`: a NOTIFY completion without MORE re-arms (`NEED_PUSH_NOTIFIER`), and the eventfd is cleared;
+`arm_notifier` pushes only when the flag is set and clears it afterwards -/
+theorem notifier_shape :
+    WakeOrder.iourPollEntries.take 4 =
+      [("completion", ""), ("more", "for cqueue"), ("insert", "if !more(flags)"), ("clear", "for cqueue")] ∧
+    WakeOrder.iourArmNotifier.map Prod.fst = ["contains", "push_raw", "?", "remove"] := by
+  decide
+
+/-- `Remote::schedule`: start_scheduling, (coalesce / finished: finish, return), load shared (null: finish, return),
+pending.fetch_add, push loop [wake once, else cancelled? fetch_sub, finish, return, else yield], wake, finish.
+The guard of the wake-up AFTER the loop does not mention `notified` (the repair of F030): the model's `rewake = true`. -/
+theorem remote_schedule_shape :
+    WakeOrder.remoteSchedule.map Prod.fst =
+      ["start_scheduling", "is_scheduled", "is_completed", "is_cancelled", "finish_scheduling", "return",
+       "load", "finish_scheduling", "return", "fetch_add", "push", "wake_by_ref", "load", "is_cancelled",
+       "fetch_sub", "finish_scheduling", "return", "yield_now", "wake_by_ref", "finish_scheduling"] ∧
+    WakeOrder.remoteSchedule.getLast? = some ("finish_scheduling", "") ∧
+    (WakeOrder.remoteSchedule.filter (fun c => c.1 == "wake_by_ref")).map Prod.snd =
+      ["if !notified&&letSome(refwaker)=shared.waker", "if letSome(refwaker)=shared.waker"] := by
+  decide
+
+/-- the call a program point of a waker thread stands for -/
+def callOfWPc : WPc → Option String
+  | .sched => some "start_scheduling"
+  | .load => some "load"
+  | .reserve => some "fetch_add"
+  | .push => some "push"
+  | .dwake => some "wake_by_ref"
+  | .fin => some "finish_scheduling"
+  | _ => none
+
+def wpcTrace (w : Nat) : Nat → State → List WPc
+  | 0, _ => []
+  | n + 1, s => (s.wk w).pc :: match wStep s w with
+    | some s' => wpcTrace w n s'
+    | none => []
+
+/-- the model's waker thread (uncontended path) executes the calls of `Remote::schedule` in the source's order -/
+theorem remote_schedule_order :
+    (match step (init { (cfgOf .iour .own) with nw := 1 }) (.wStart 0 (.task 0)) with
+      | some s => (wpcTrace 0 7 s).filterMap callOfWPc
+      | none => []) =
+    ((WakeOrder.remoteSchedule.filter
+        (fun c => c.2 == "" || c.2 == "while-cond shared.sync.push(self.header().id).is_err()"
+          || c.2 == "if letSome(refwaker)=shared.waker")).map Prod.fst).filter
+      (fun c => ["start_scheduling", "load", "fetch_add", "push", "wake_by_ref", "finish_scheduling"].contains c) := by
+  decide
+
+/-- `Local::schedule`, `drain_sync`, `Executor::tick`, `Task::run`: the order the model follows -/
+theorem executor_shapes :
+    WakeOrder.localSchedule.map Prod.fst = ["load", "return", "drain_sync", "make_hot", "wake_by_ref"] ∧
+    WakeOrder.drainSync = [("load", ""), ("return", "if self.pending.load(Ordering::Acquire)==0"),
+      ("pop", "while-cond letSome(id)=self.sync.pop()"), ("make_hot", "while letSome(id)=self.sync.pop()"),
+      ("fetch_sub", "if drained!=0")] ∧
+    names WakeOrder.tick ["drain_sync", "iter_hot", "make_cold", "run", "drop", "remove", "reset", "has_hot"] =
+      ["drain_sync", "iter_hot", "make_cold", "run", "drop", "remove", "reset", "has_hot"] ∧
+    WakeOrder.taskRun.map Prod.fst = ["unschedule", "is_cancelled", "return", "run_future", "finish_running"] := by
+  decide
+
+/-- the two loops: `block_on` = poll main, run, poll_with(0) | poll;  compio-compat `drive` = poll main, run, flush,
+wait, clear, poll_with -/
+theorem loop_shapes :
+    WakeOrder.blockOn.map Prod.fst = ["waker", "poll", "run", "return", "run", "poll_with", "poll"] ∧
+    (WakeOrder.blockOn.filter (fun c => c.1 == "poll_with" || (c.1 == "poll" && c.2 != "loop"))).map Prod.snd =
+      ["if remaining_tasks", "else(remaining_tasks)"] ∧
+    names WakeOrder.compatDrive ["poll", "run", "flush", "wait", "clear", "poll_with"] =
+      ["poll", "run", "run", "flush", "wait", "clear", "poll_with"] := by
+  decide
+
+/-! ### memory orderings
+
+The proofs above are for sequentially consistent atomics. What the SC argument uses: every access to the flag
+that must be totally ordered against the others is a read-modify-write with AcqRel (`reset`, `wake`), a value
+published for another thread is written with at least Release, read with at least Acquire. The table below is
+checked against the orderings WRITTEN IN THE SOURCE (regenerated on every run). It does not make the proof a
+weak-memory proof: e.g. `AwakeFlag::set` is a Release STORE followed (much later) by the Acquire load of `pending`,
+a store→load pair the C++ model may reorder; such executions are not modelled. -/
+
+/-- (acquire, release) strength of an ordering as written -/
+def ordBits (o : String) : Bool × Bool :=
+  if o = "Ordering::Acquire" ∨ o = "Strong::ACQUIRE" ∨ o = "C::ACQUIRE" then (true, false)
+  else if o = "Ordering::Release" ∨ o = "Strong::RELEASE" ∨ o = "C::RELEASE" then (false, true)
+  else if o = "Ordering::AcqRel" ∨ o = "Strong::ACQ_REL" ∨ o = "C::ACQ_REL" ∨ o = "Ordering::SeqCst" then (true, true)
+  else (false, false)
+
+def atLeast (need have_ : Bool × Bool) : Bool := (!need.1 || have_.1) && (!need.2 || have_.2)
+
+/-- minimum orderings the SC argument relies on: (where, method, acquire, release) -/
+def required : List (String × String × Bool × Bool) := [
+  ("flag", "reset", true, true), ("flag", "wake", true, true), ("flag", "set", false, true),
+  ("word", "startScheduling", true, true), ("word", "unschedule", true, true),
+  ("word", "finishScheduling", false, true), ("word", "setCancelled", true, true), ("word", "load", true, false),
+  ("remote", "load", true, false), ("remote", "fetch_add", false, true), ("remote", "fetch_sub", false, true),
+  ("drain", "load", true, false), ("drain", "fetch_sub", false, true)]
+
+def written (wh m : String) : Option String :=
+  match wh with
+  | "flag" => (AwakeFlag.orderings.find? (fun e => e.1 == m)).map (fun e => e.2.2)
+  | "word" => (TaskState.orderings.find? (fun e => e.1 == m)).map Prod.snd
+  | "remote" => (WakeOrder.remoteScheduleOrd.find? (fun e => e.1 == m)).map Prod.snd
+  | "drain" => (WakeOrder.drainSyncOrd.find? (fun e => e.1 == m)).map Prod.snd
+  | _ => none
+
+/-- every ordering written in the source is at least the one in the table; weakening one breaks this theorem -/
+theorem orderings_sufficient :
+    required.all (fun r => match written r.1 r.2.1 with
+      | some o => atLeast (r.2.2.1, r.2.2.2) (ordBits o)
+      | none => false) = true := by
+  decide
+
+/-! ### non-vacuity: the hypotheses are satisfiable on non-trivial states -/
+
+/-- a concrete interleaving: thread 0 wakes task 5 completely while the runtime sleeps in the kernel, thread 1 starts a
+second wake of the same task and is coalesced -/
+def demoCfg : Cfg := { drv := .iour, loop := .own, q := 2, maxInt := 2, nw := 2, flushArms := true, rewake := true }
+
+def demoTrace : List Event :=
+  [.rt .go, .rt .go, .rt .go, .rt .go, .rt .go, .rt .go, .rt .go,
+   .wStart 0 (.task 5), .w 0, .w 0, .w 0, .w 0, .w 0, .w 0, .w 0,
+   .wStart 1 (.task 5), .w 1, .w 1]
+
+def demoState : State := (run (init demoCfg) demoTrace).getD (init demoCfg)
+
+theorem demo_reachable : Reachable demoCfg demoState := by
+  refine ⟨demoTrace, ?_⟩
+  unfold demoState
+  cases h : run (init demoCfg) demoTrace with
+  | some s => rfl
+  | none =>
+    have : (run (init demoCfg) demoTrace).isSome = true := by decide
+    rw [h] at this; cases this
+
+example : Good demoCfg := ⟨rfl, rfl⟩
+
+/-- the hypotheses of `no_lost_wake_task` and of `queued_task_is_polled` hold there (and both wake() calls returned) -/
+example : demoState.woken 5 = true ∧ demoState.dropped 5 = false ∧ TaskState.isCancelled (demoState.word 5) = false ∧
+    5 ∈ demoState.sync ∧ demoState.rt = .wait ∧ cnt demoState inflightP = 0 ∧ cnt demoState aboutP = 0 ∧
+    (demoState.wk 0).pc = .idle ∧ (demoState.wk 1).pc = .idle ∧ cov demoState = true ∧
+    (rtStep demoState .go).isSome = true := by
+  decide
+
+/-- and the bound of `queued_task_is_polled` is met: the runtime thread alone polls task 5 after 13 of its steps
+(bound: (0 + 2) * (1 + 22) = 46) -/
+example : (rtRun 13 demoState).polls 5 = demoState.polls 5 + 1 ∧ posOf demoState 5 = 0 ∧ demoState.sync.length = 1 := by
+  decide
+
+/-- main future: thread 0 wakes it while the runtime sleeps -/
+def demoMain : State :=
+  (run (init demoCfg) [.rt .go, .rt .go, .rt .go, .rt .go, .rt .go, .rt .go, .rt .go,
+    .wStart 0 .main, .w 0, .w 0]).getD (init demoCfg)
+
+example : demoMain.mainWoken = true ∧ demoMain.rt = .wait ∧ covM demoMain = true ∧ cnt demoMain inflightP = 0 ∧
+    (rtRun 6 demoMain).mainPolls = demoMain.mainPolls + 1 := by
+  decide
 
 end Compio.Props.C03
